@@ -59,6 +59,13 @@ void run(Report & rep, Rng & rng, int n, double tol)
       ld sc = maxabs(av) * maxabs(bv) * maxabs(to_ld(cc));
       chk("jacobi", jac, VecX::Zero(jac.size()), sc);
     }
+    // the same maps through the free functions of the LieGroup interface (and the left/right Jacobian aliases built on them)
+    {
+      MatX gA = mto_ld(g.Ad());
+      chk("api_free_Ad", mto_ld(smooth::Ad(g)), gA, maxabs(gA));
+      MatX ga = mto_ld(G::ad(a));
+      chk("api_free_ad", mto_ld(smooth::ad<G>(a)), ga, maxabs(ga));
+    }
     // Ad homomorphism
     {
       MatX A1 = mto_ld(g.Ad()), A2 = mto_ld(g2.Ad()), A12 = mto_ld((g * g2).Ad());
